@@ -494,6 +494,6 @@ func TestRtspStart(t *testing.T) {
 	_ = fmt.Sprint
 	pbt.Run(t, pbt.Spec[RtspCase]{
 		ID: "C02", Name: "rtsp-start", Gen: genRtsp, Run: runRtsp, Classify: classifyRtsp,
-		Quick: 1500, Thorough: 15000,
+		Quick: 1000, Thorough: 12000,
 	})
 }
